@@ -65,14 +65,14 @@ package didnuts
 //@   safety
 //@   call (*ambassador).handleCreateDIDDocument #1 requires [create-only-after-integrity-and-validation-with-embedded-key]
 //@        isNilIface(ret(call checkTransactionIntegrity #1)) && arg(call checkTransactionIntegrity #1, 0) == tx
-//@     && isNilIface(ret(call encoding/json.Unmarshal #1)) && arg(call encoding/json.Unmarshal #1, 0) == payload
+//@     && isNilIface(ret(call resolver.UnmarshalDocument #1)) && arg(call resolver.UnmarshalDocument #1, 0) == payload
 //@     && did(call (did.Validator).Validate #1) && isNilIface(ret(call (did.Validator).Validate #1))
 //@     && arg(call (did.Validator).Validate #1, 0) == ret(call NetworkDocumentValidator #1)
 //@     && same(arg(call (did.Validator).Validate #1, 1), nextDIDDocument)
 //@     && !n.isUpdate(tx) && arg(1) == tx && same(arg(2), nextDIDDocument)
 //@   call (*ambassador).handleUpdateDIDDocument #1 requires [update-only-after-integrity-and-validation-without-embedded-key]
 //@        isNilIface(ret(call checkTransactionIntegrity #1)) && arg(call checkTransactionIntegrity #1, 0) == tx
-//@     && isNilIface(ret(call encoding/json.Unmarshal #1)) && arg(call encoding/json.Unmarshal #1, 0) == payload
+//@     && isNilIface(ret(call resolver.UnmarshalDocument #1)) && arg(call resolver.UnmarshalDocument #1, 0) == payload
 //@     && did(call (did.Validator).Validate #1) && isNilIface(ret(call (did.Validator).Validate #1))
 //@     && same(arg(call (did.Validator).Validate #1, 1), nextDIDDocument)
 //@     && n.isUpdate(tx) && arg(1) == tx && same(arg(2), nextDIDDocument)
